@@ -73,6 +73,7 @@ def _apply(m, dst):
 def main(argv):
   tier = 'quick'
   want = []
+  only_props = None  # --props C04,C12: only these checks
   confirm = False  # --confirm: minimise + fresh-interpreter replay of every violation (slow); default: list mode
   it = iter(argv)
   for a in it:
@@ -80,6 +81,8 @@ def main(argv):
       tier = next(it)
     elif a == '--confirm':
       confirm = True
+    elif a == '--props':
+      only_props = set(next(it).split(','))
     else:
       want.append(a)
   rows = []
@@ -96,6 +99,8 @@ def main(argv):
         print('mutant %-55s %-4s %-13s %6.1fs %s' % rows[-1])
         continue
       for prop in m['properties']:
+        if only_props is not None and prop not in only_props:
+          continue
         env = dict(os.environ)
         env.pop('_VERIF_PINNED', None)
         env.update({'VERIF_REPO': dst, 'VERIF_EVIDENCE_DIR': evd})
@@ -111,7 +116,9 @@ def main(argv):
           clause = [' '.join(x.split(' ')[1:]) for x in new_sigs]
         status = 'CAUGHT' if ((p.returncode == 1 and viol) or (p.returncode == 3 and new_sigs)) else (
             'HARNESS-ERROR' if p.returncode == 2 else 'MISSED')
-        if m.get('benign'):
+        if m.get('benign') and 'HARNESS-ERROR' in p.stdout:
+          status = 'HARNESS-ERROR'  # list mode returns 3 when a known finding is hit, which would hide it
+        elif m.get('benign'):
           status = {'CAUGHT': 'FALSE-ALARM', 'MISSED': 'QUIET', 'HARNESS-ERROR': 'HARNESS-ERROR'}[status]
         rows.append((m['id'], prop, status, time.time() - t0, clause[0][:150] if clause else ''))
         print('mutant %-55s %-4s %-13s %6.1fs %s' % rows[-1])
@@ -123,7 +130,7 @@ def main(argv):
   quiet = sum(1 for r in rows if r[2] == 'QUIET')
   false_alarms = sum(1 for r in rows if r[2] == 'FALSE-ALARM')
   print(f'mutants: {caught} breaking (change, check) pairs caught; benign refactors: {quiet} quiet, {false_alarms} false alarms; {len(rows)} pairs in total')
-  if not want:
+  if not want and only_props is None:
     path = os.path.join(boot.VERIF_ROOT, 'seeded', 'SENSITIVITY.md')
     with open(path, 'w') as f:
       f.write('# Sensitivity table (written by `./vcheck mutants`, tier %s)\n\n' % tier)
